@@ -300,6 +300,11 @@ package manager
 //@ func (*Manager).tagReferencesTransitively
 //@   prop C11
 //@   trusted
+// the attach rule only reads the tag's features (checked: its frame is empty); a new definition is checked against it
+// while converters are attached
+//@ func converterAttachable
+//@   prop C11
+//@   requires tag != nil
 //@ func (*Manager).UpdateTag$1$1@region:query
 //@   prop C11
 //@   heap newTag
